@@ -253,15 +253,31 @@ impl Run {
 
     /// Evaluate all items in parallel and absorb the results. `sample` renders an item for the
     /// evidence file.
-    pub fn explore<S: Sync, F: Fn(&S) -> Eval + Sync, G: Fn(&S) -> J>(&mut self, items: &[S], f: F, sample: G) {
+    pub fn explore<S: Sync, F: Fn(&S) -> Eval + Sync, G: Fn(&S) -> J + Sync>(&mut self, items: &[S], f: F, sample: G) {
         let t0 = Instant::now();
         let before = self.states;
+        // the watchdog (see `watchdog`) can describe the items that are being evaluated when the library does not return
+        let describe = |i: usize| -> String { sample(&items[i]).render() };
+        let describe_ref: &(dyn Fn(usize) -> String + Sync) = &describe;
+        let guard = watchdog::Describer::install(describe_ref, &self.property, &self.tier);
+        let mut offset = 0usize;
         for chunk in items.chunks(65536) {
-            let evals: Vec<Eval> = chunk.par_iter().map(|s| f(s)).collect();
+            let evals: Vec<Eval> = chunk
+                .par_iter()
+                .enumerate()
+                .map(|(k, s)| {
+                    let slot = watchdog::enter(offset + k);
+                    let e = f(s);
+                    watchdog::exit(slot);
+                    e
+                })
+                .collect();
+            offset += chunk.len();
             for e in evals {
                 self.absorb(e);
             }
         }
+        drop(guard);
         // samples: first, last and a seed-selected one
         if !items.is_empty() && self.samples.len() < 12 {
             let n = items.len();
@@ -424,6 +440,117 @@ impl Run {
             1
         } else {
             0
+        }
+    }
+}
+
+
+/// Watchdog: a library call that never returns (endless loop, runaway allocation) must become a verdict about the input
+/// it was given, not a check that hangs or is killed. Every evaluation registers the item it works on; a monitor thread
+/// looks at the wall time of the items in flight and at the resident memory of the process. When a limit is passed it
+/// writes the descriptions of the items in flight to a replay file, prints a VIOLATION line and a minimal evidence file,
+/// and ends the process with exit code 1. Limits are far above anything the unchanged tree needs (quick: 240 s per item,
+/// 8 GiB; thorough: 3600 s, 24 GiB).
+pub mod watchdog {
+    use std::sync::atomic::{AtomicBool, AtomicUsize, Ordering};
+    use std::sync::Mutex;
+    use std::time::Instant;
+
+    const SLOTS: usize = 256;
+    static NEXT: AtomicUsize = AtomicUsize::new(0);
+    #[allow(clippy::declare_interior_mutable_const)]
+    const EMPTY: Mutex<Option<(Instant, usize)>> = Mutex::new(None);
+    static INFLIGHT: [Mutex<Option<(Instant, usize)>>; SLOTS] = [EMPTY; SLOTS];
+    static STARTED: AtomicBool = AtomicBool::new(false);
+    struct Ptr(*const (dyn Fn(usize) -> String + Sync));
+    unsafe impl Send for Ptr {}
+    static DESCRIBER: Mutex<Option<(Ptr, String, String)>> = Mutex::new(None);
+
+    thread_local! {
+        static MY_SLOT: usize = NEXT.fetch_add(1, Ordering::Relaxed) % SLOTS;
+    }
+
+    pub fn enter(item: usize) -> usize {
+        let slot = MY_SLOT.with(|s| *s);
+        *INFLIGHT[slot].lock().unwrap() = Some((Instant::now(), item));
+        slot
+    }
+
+    pub fn exit(slot: usize) {
+        *INFLIGHT[slot].lock().unwrap() = None;
+    }
+
+    pub struct Describer;
+
+    impl Describer {
+        /// Valid until the returned guard is dropped (the guard is dropped before the borrowed closure goes away).
+        pub fn install(d: &(dyn Fn(usize) -> String + Sync), property: &str, tier: &str) -> Describer {
+            let p: *const (dyn Fn(usize) -> String + Sync) = unsafe { std::mem::transmute(d) };
+            *DESCRIBER.lock().unwrap() = Some((Ptr(p), property.to_string(), tier.to_string()));
+            if !STARTED.swap(true, Ordering::SeqCst) {
+                std::thread::spawn(monitor);
+            }
+            Describer
+        }
+    }
+
+    impl Drop for Describer {
+        fn drop(&mut self) {
+            // wait for a monitor that is in the middle of describing, then retire the pointer
+            *DESCRIBER.lock().unwrap() = None;
+        }
+    }
+
+    fn rss_bytes() -> u64 {
+        std::fs::read_to_string("/proc/self/statm").ok().and_then(|s| s.split_whitespace().nth(1).and_then(|x| x.parse::<u64>().ok())).map_or(0, |pages| pages * 4096)
+    }
+
+    fn monitor() {
+        loop {
+            std::thread::sleep(std::time::Duration::from_millis(100));
+            let g = DESCRIBER.lock().unwrap();
+            let Some((ptr, property, tier)) = g.as_ref() else { continue };
+            let thorough = tier == "thorough";
+            let (tmax, mmax) = if thorough { (3600.0, 24u64 << 30) } else { (240.0, 8u64 << 30) };
+            let mut flying: Vec<(f64, usize)> = vec![];
+            for s in INFLIGHT.iter() {
+                if let Some((t, i)) = *s.lock().unwrap() {
+                    flying.push((t.elapsed().as_secs_f64(), i));
+                }
+            }
+            flying.sort_by(|a, b| b.0.partial_cmp(&a.0).unwrap());
+            let rss = rss_bytes();
+            let why = if flying.first().map_or(false, |f| f.0 > tmax) {
+                format!("an evaluation has not returned after {:.0} s", flying[0].0)
+            } else if rss > mmax {
+                format!("the process holds {:.1} GiB of memory while these inputs are being evaluated", rss as f64 / (1u64 << 30) as f64)
+            } else {
+                continue;
+            };
+            // describe the items in flight (the closure is alive: the guard cannot be dropped while we hold the lock)
+            let d: &(dyn Fn(usize) -> String + Sync) = unsafe { &*ptr.0 };
+            let culprits: Vec<(f64, usize)> = if why.starts_with("an evaluation") { flying.iter().copied().filter(|f| f.0 > tmax).collect() } else { flying.clone() };
+            let mut text = format!("check=watchdog\nproperty={}\ntier={}\nreason={}\n", property, tier, why);
+            for (age, i) in &culprits {
+                text.push_str(&format!("in_flight_for_s={:.1}\nitem={}\n", age, d(*i).replace('\n', " ")));
+            }
+            let dir = format!("{}/replays", super::verif_dir());
+            let _ = std::fs::create_dir_all(&dir);
+            let path = format!("{}/{}-watchdog.replay", dir, property);
+            let _ = std::fs::write(&path, &text);
+            println!("VIOLATION property={} replay={}", property, path);
+            println!("  clause=library-call-does-not-return case={} input(s) in flight: {}", culprits.len(), why);
+            let first = culprits.first().map(|c| d(c.1).replace('\n', " ")).unwrap_or_default();
+            let esc = |s: &str| s.replace('\\', "\\\\").replace('"', "\\\"");
+            let ev = format!(
+                "{{\"property_id\":\"{}\",\"tier\":\"{}\",\"seed\":0,\"level\":\"model_checking\",\"coverage\":{{\"states\":0,\"transitions\":0,\"traces_validated_against_impl\":0,\"samples\":[\"{}\"],\"exhaustive\":false,\"rule\":\"the exploration was stopped by the watchdog: {}\",\"violations_detail\":[{{\"clause\":\"library-call-does-not-return\",\"case\":\"{} input(s) in flight\",\"detail\":\"{}\",\"replay\":\"{}\"}}]}},\"assumptions\":[\"limits: {} s per evaluation, {} GiB resident\"],\"wall_s\":0,\"violations\":1}}",
+                property, tier, esc(&first.chars().take(300).collect::<String>()), esc(&why), culprits.len(), esc(&why), esc(&path), tmax, mmax >> 30
+            );
+            let evp = std::env::var("VERIF_EVIDENCE_PATH").unwrap_or_else(|_| format!("{}/evidence/{}.json", super::verif_dir(), property));
+            let _ = std::fs::write(evp, ev);
+            use std::io::Write;
+            let _ = std::io::stdout().flush();
+            std::process::exit(1);
         }
     }
 }
